@@ -5,7 +5,7 @@
 From Coq Require Import List ZArith.
 Import ListNotations.
 From Goag Require Import Base.Str Model.Params Model.Json Spec.JsonSpec
-     Proofs.JsonEncProofs Proofs.JsonRtProofs.
+     Proofs.JsonEncProofs Proofs.JsonRtProofs Model.OneOf Proofs.OneOfProofs.
 
 (* Every value of a generated type encodes to a JSON value: whatever the allOf
    structure (embedded $ref members and inline members in any order, embedded
@@ -31,3 +31,38 @@ Print Assumptions C06_roundtrip.
 Theorem C06_domain_typed : forall s v, rt_ok s v -> typed s v.
 Proof. exact rt_ok_typed. Qed.
 Print Assumptions C06_domain_typed.
+
+(* oneOf components (one Maybe field per variant; MarshalJSON writes the field
+   that is set).  Without a discriminator the generated decoder keeps the FIRST
+   variant, in declaration order, that accepts the document: the value comes
+   back exactly when no earlier variant accepts its encoding. *)
+Theorem C06_oneof_roundtrip : forall fmt_float fmt_time parse_num parse_time,
+  (forall b r, parse_num b (fmt_float b r) = Some r) ->
+  (forall r, parse_time (fmt_time r) = Some r) ->
+  forall o i s v j,
+    o_disc o = None ->
+    nth_error (o_variants o) i = Some s ->
+    rt_ok s v ->
+    enc_oneof fmt_float fmt_time (o_variants o) (single (length (o_variants o)) i v) = Ok j ->
+    (forall i' s', i' < i -> nth_error (o_variants o) i' = Some s' ->
+                   forall v', dec parse_num parse_time s' j <> Ok v') ->
+    dec_oneof parse_num parse_time o j = Ok (single (length (o_variants o)) i v).
+Proof. exact oneof_roundtrip_nodisc. Qed.
+Print Assumptions C06_oneof_roundtrip.
+
+(* With a discriminator the decoder switches on the discriminator property: the
+   value comes back when its encoding carries there a name that the switch (the
+   schema's own name first, then the explicit mapping keys) sends to its variant. *)
+Theorem C06_oneof_roundtrip_discriminator : forall fmt_float fmt_time parse_num parse_time,
+  (forall b r, parse_num b (fmt_float b r) = Some r) ->
+  (forall r, parse_time (fmt_time r) = Some r) ->
+  forall o key cases i s v j k,
+    o_disc o = Some (key, cases) ->
+    nth_error (o_variants o) i = Some s ->
+    rt_ok s v ->
+    enc_oneof fmt_float fmt_time (o_variants o) (single (length (o_variants o)) i v) = Ok j ->
+    disc_key key j = Ok k ->
+    find_case cases k = Some i ->
+    dec_oneof parse_num parse_time o j = Ok (single (length (o_variants o)) i v).
+Proof. exact oneof_roundtrip_disc. Qed.
+Print Assumptions C06_oneof_roundtrip_discriminator.
